@@ -462,6 +462,8 @@ class Interp:
         if isinstance(v, Opaque):
             if "truth" in v.attrs:
                 return v.attrs["truth"]
+            if v.tag in ("dongle", "logger") or v.tag.startswith("file"):
+                return True
             raise Unsupported("truth of opaque %s" % v.tag)
         return bool(v)
 
